@@ -3,9 +3,11 @@
    Proofs/KernelsP.v (PlatformOK of the modelled kernels).  A "platform" is the record
    (SIMD degree, MAX_SIMD_DEGREE, four kernels); PlatformOK says the kernels equal the
    portable ones on their domain and the degree is a power of two <= MAX_SIMD_DEGREE <= 16. *)
+From Coq Require Import String.
 From Coq Require Import NArith List Bool.
 From V Require Import Base.Res Base.Word Spec.Tree Spec.Blake3 Model.Platform Model.Kernels Model.RsChunk Model.RsWide
   Model.RsHasher Model.RsXof Model.Machine Proofs.KernelsP Proofs.XofP Proofs.IoP Proofs.HasherP Proofs.C02P Proofs.C04P Model.SpecMachine Proofs.MachineRefinesP.
+From V Require Import gen.GenConsts Model.Portable Model.DispatchSyntax gen.GenPlatform Model.PlatformDispatch Model.CHasher Proofs.GenPlatformP.
 Import ListNotations.
 Open Scope N_scope.
 
@@ -73,3 +75,195 @@ Print Assumptions C04_histories.
 Print Assumptions C04_extended_output.
 Print Assumptions C04_subtree_cvs.
 Print Assumptions C04_platforms_ok.
+
+(* ---- the dispatch layer itself, translated from the source text (gen/GenPlatform.v, tools/gen_coq_platform.py) ----
+   src_platform_* / src_detect / src_c_* are the translated functions; cfgs_of f is the set of cfg flags of the
+   x86-64 build flavour f (default = assembly behind FFI, prefer-intrinsics, pure), defs_c_x86 the C library's build;
+   src_cip / src_cx / src_hm / src_xm are the translated Platform methods with each `crate::<mod>::` callee bound to
+   the kernel models of the file the translated module table of lib.rs selects. *)
+
+(* which kernel each variant calls, for arbitrary kernels *)
+Theorem C04_src_compress_in_place_table : forall f kp k2 k41 k512 kw v cv block bl ctr fl,
+  src_platform_compress_in_place (cfgs_of f) k512 k2 k41 kw kp v cv block bl ctr fl =
+  option_map (fun k : cip_fn => k cv block bl ctr fl) (rs_x86_compress_table (has_avx512 f) kp k2 k41 k512 v).
+Proof. exact src_compress_in_place_table. Qed.
+
+Theorem C04_src_compress_xof_table : forall f kp k2 k41 k512 kw v cv block bl ctr fl,
+  src_platform_compress_xof (cfgs_of f) k512 k2 k41 kw kp v cv block bl ctr fl =
+  option_map (fun k : cip_fn => k cv block bl ctr fl) (rs_x86_compress_table (has_avx512 f) kp k2 k41 k512 v).
+Proof. exact src_compress_xof_table. Qed.
+
+Theorem C04_src_hash_many_table : forall f kp k2 k41 k8 k512 kn kw v inputs key ctr incr fl fs fe cap,
+  src_platform_hash_many (cfgs_of f) k8 k512 kn k2 k41 kw kp v inputs key ctr incr fl fs fe cap =
+  option_map (fun k : hash_many_fn => k inputs key ctr incr fl fs fe cap)
+             (rs_x86_hash_many_table (has_avx512 f) kp k2 k41 k8 k512 v).
+Proof. exact src_hash_many_table. Qed.
+
+Theorem C04_src_xof_many_table : forall f k512 (cx : variant -> cip_fn) v cv block bl ctr fl n,
+  src_platform_xof_many (cfgs_of f) k512 cx v cv block bl ctr fl n =
+  if n =? 0 then Ok []
+  else match v with
+       | AVX512 => if has_avx512 f then k512 cv block bl ctr fl n
+                   else xof_many_loop (cx v) cv block bl ctr fl (N.to_nat n)
+       | _ => xof_many_loop (cx v) cv block bl ctr fl (N.to_nat n)
+       end.
+Proof. exact src_xof_many_table. Qed.
+
+(* every call site of both files passes the parameters of the enclosing function in their own order *)
+Theorem C04_src_argorders_identity :
+  forallb argorder_identity
+    (src_platform_compress_in_place_arms ++ src_platform_compress_xof_arms ++ src_platform_hash_many_arms ++
+     src_platform_xof_many_arms ++ src_c_compress_in_place_ladder ++ src_c_compress_xof_ladder ++
+     src_c_xof_many_ladder ++ src_c_hash_many_ladder) = true.
+Proof. exact src_argorders_identity. Qed.
+
+(* the translated dispatch with the kernel models behind the callees = the platform record of (flavour, variant):
+   degree, compress_in_place, compress_xof, hash_many, xof_many at every argument; variants without a record do
+   not exist in the build *)
+Theorem C04_src_platform_agrees : forall f v,
+  match model_platform f v with
+  | Some p => agrees (cfgs_of f) v p
+  | None => absent (cfgs_of f) v
+  end.
+Proof. exact src_platform_agrees. Qed.
+
+Theorem C04_src_model_platform_ok : forall f v p, model_platform f v = Some p -> PlatformOK p.
+Proof. exact model_platform_ok. Qed.
+
+(* degrees: the debug_assert of simd_degree holds in every build; the x86 table; MAX_SIMD_DEGREE(_OR_2) *)
+Theorem C04_src_simd_degree_le_max : forall cfgs v d,
+  src_platform_simd_degree cfgs v = Some d -> d <= src_MAX_SIMD_DEGREE cfgs.
+Proof. exact src_simd_degree_le_max. Qed.
+
+Theorem C04_src_simd_degree_x86 : forall f v,
+  src_platform_simd_degree (cfgs_of f) v =
+  rs_x86_hash_many_table (has_avx512 f) rs_degree_Portable rs_degree_SSE2 rs_degree_SSE41 rs_degree_AVX2 rs_degree_AVX512 v.
+Proof. exact src_simd_degree_x86. Qed.
+
+Theorem C04_src_max_degree_x86 : forall f, src_MAX_SIMD_DEGREE (cfgs_of f) = if has_avx512 f then 16 else 8.
+Proof. exact src_max_degree_x86. Qed.
+
+Theorem C04_src_max_degree_or_2 : forall cfgs, src_MAX_SIMD_DEGREE_OR_2 cfgs = N.max (src_MAX_SIMD_DEGREE cfgs) 2.
+Proof. exact src_max_degree_or_2. Qed.
+
+(* detect(): the ladder, highest available level, AVX512 iff both features, never a variant absent from the build,
+   always a variant whose dispatch agrees with a PlatformOK record *)
+Theorem C04_src_detect_x86 : forall f cpu forced,
+  src_detect (cfgs_of f) cpu forced = detect_x86 (has_avx512 f) cpu.
+Proof. exact src_detect_x86. Qed.
+
+Theorem C04_src_detect_highest : forall a cpu,
+  avail a cpu (detect_x86 a cpu) = true /\
+  forall v, avail a cpu v = true -> level v <= level (detect_x86 a cpu).
+Proof. exact detect_x86_highest. Qed.
+
+Theorem C04_src_detect_avx512_iff : forall f cpu forced,
+  src_detect (cfgs_of f) cpu forced = AVX512 <->
+  has_avx512 f = true /\ cpu "avx512f"%string = true /\ cpu "avx512vl"%string = true.
+Proof. exact src_detect_avx512_iff. Qed.
+
+Theorem C04_src_detect_exists : forall cfgs cpu, variant_exists cfgs (src_detect cfgs cpu None) = true.
+Proof. exact src_detect_exists. Qed.
+
+Theorem C04_src_detect_ok : forall f cpu forced,
+  exists p, model_platform f (src_detect (cfgs_of f) cpu forced) = Some p /\
+            agrees (cfgs_of f) (src_detect (cfgs_of f) cpu forced) p /\ PlatformOK p.
+Proof. exact src_detect_ok. Qed.
+
+(* the C dispatcher at every feature mask *)
+Theorem C04_src_c_compress_in_place_table : forall (k512 k41 k2 kp : cip_fn) features cv block bl ctr fl,
+  src_c_compress_in_place defs_c_x86 k512 kp k2 k41 features cv block bl ctr fl =
+  c_x86_compress_table k512 k41 k2 kp features cv block bl ctr fl.
+Proof. exact src_c_compress_in_place_table. Qed.
+
+Theorem C04_src_c_compress_xof_table : forall (k512 k41 k2 kp : cip_fn) features cv block bl ctr fl,
+  src_c_compress_xof defs_c_x86 k512 kp k2 k41 features cv block bl ctr fl =
+  c_x86_compress_table k512 k41 k2 kp features cv block bl ctr fl.
+Proof. exact src_c_compress_xof_table. Qed.
+
+Theorem C04_src_c_hash_many_table : forall k512 k8 k41 k2 kn kp features inputs num_inputs blocks key ctr incr fl fs fe,
+  src_c_hash_many defs_c_x86 k8 k512 kn kp k2 k41 features inputs num_inputs blocks key ctr incr fl fs fe =
+  c_x86_wide_table k512 k8 k41 k2 kp features inputs num_inputs blocks key ctr incr fl fs fe.
+Proof. exact src_c_hash_many_table. Qed.
+
+Theorem C04_src_c_xof_many_table : forall k512 (cx : cip_fn) features cv block bl ctr fl n,
+  src_c_xof_many defs_c_x86 cx k512 features cv block bl ctr fl n =
+  if n =? 0 then Ok []
+  else if has_bit features src_c_feature_AVX512VL then k512 cv block bl ctr fl n
+  else xof_many_loop cx cv block bl ctr fl (N.to_nat n).
+Proof. exact src_c_xof_many_table. Qed.
+
+Theorem C04_src_c_degree_matches_hash_many : forall features,
+  src_c_simd_degree defs_c_x86 features =
+  snd (c_x86_wide_table (src_c_feature_AVX512F, 16) (src_c_feature_AVX2, 8) (src_c_feature_SSE41, 4)
+                        (src_c_feature_SSE2, 4) (0, 1) features).
+Proof. exact src_c_degree_matches_hash_many. Qed.
+
+Theorem C04_src_c_simd_degree_ok : forall features, PlatformOK (c_platform (src_c_simd_degree defs_c_x86 features)).
+Proof. exact src_c_simd_degree_ok. Qed.
+
+Theorem C04_src_c_compress_in_place_ok : forall features cv block bl ctr fl,
+  src_c_compress_in_place defs_c_x86 cip_rows compress_in_place cip_rows cip_rows features cv block bl ctr fl =
+  compress_in_place cv block bl ctr fl.
+Proof. exact src_c_compress_in_place_ok. Qed.
+
+Theorem C04_src_c_compress_xof_ok : forall features cv block bl ctr fl,
+  src_c_compress_xof defs_c_x86 cx_rows compress_xof cx_rows cx_rows features cv block bl ctr fl =
+  compress_xof cv block bl ctr fl.
+Proof. exact src_c_compress_xof_ok. Qed.
+
+Theorem C04_src_c_hash_many_ok : forall kn features inputs blocks key ctr incr fl fs fe,
+  length key = 8%nat -> (forall i, In i inputs -> length i = (N.to_nat blocks * 64)%nat) ->
+  ctr + N.of_nat (length inputs) < 2 ^ 64 ->
+  src_c_hash_many defs_c_x86
+    (c_hm (hash_many_c8 (load_counters_cmp 8) (load_counters_cmp 4) compress_in_place_rows))
+    (c_hm (hash_many_c16 compress_in_place_rows))
+    kn (c_hm (hash_many_c1 compress_in_place))
+    (c_hm (hash_many_c4 (load_counters_cmp 4) compress_in_place_rows))
+    (c_hm (hash_many_c4 (load_counters_cmp 4) compress_in_place_rows))
+    features inputs (N.of_nat (length inputs)) blocks key ctr incr fl fs fe =
+  Ok (hm_spec inputs key ctr incr fl fs fe).
+Proof. exact src_c_hash_many_ok. Qed.
+
+Theorem C04_src_c_xof_many_ok : forall features cv block bl ctr fl n, ctr + n < 2 ^ 64 ->
+  src_c_xof_many defs_c_x86
+    (src_c_compress_xof defs_c_x86 cx_rows compress_xof cx_rows cx_rows features)
+    (guard_xm (xof_many_avx512 compress_xof_rows))
+    features cv block bl ctr fl n =
+  portable_xof_many cv block bl ctr fl n.
+Proof. exact src_c_xof_many_ok. Qed.
+
+(* non-vacuity: the default build on a CPU with AVX2 but no AVX-512 selects AVX2, whose hash_many is the C/assembly
+   cascade behind the FFI wrapper *)
+Example C04_src_nonvacuous :
+  let cpu := env_of ["sse2"; "sse4.1"; "avx2"]%string in
+  src_detect (cfgs_of FlDefault) cpu None = AVX2 /\ model_platform FlDefault AVX2 = Some avx2_ffi_platform /\
+  src_c_simd_degree defs_c_x86 (N.lor src_c_feature_SSE2 (N.lor src_c_feature_SSE41 src_c_feature_AVX2)) = 8.
+Proof. cbv zeta. split; [reflexivity|]. split; [reflexivity|]. vm_compute. reflexivity. Qed.
+
+Print Assumptions C04_src_compress_in_place_table.
+Print Assumptions C04_src_compress_xof_table.
+Print Assumptions C04_src_hash_many_table.
+Print Assumptions C04_src_xof_many_table.
+Print Assumptions C04_src_argorders_identity.
+Print Assumptions C04_src_platform_agrees.
+Print Assumptions C04_src_model_platform_ok.
+Print Assumptions C04_src_simd_degree_le_max.
+Print Assumptions C04_src_simd_degree_x86.
+Print Assumptions C04_src_max_degree_x86.
+Print Assumptions C04_src_max_degree_or_2.
+Print Assumptions C04_src_detect_x86.
+Print Assumptions C04_src_detect_highest.
+Print Assumptions C04_src_detect_avx512_iff.
+Print Assumptions C04_src_detect_exists.
+Print Assumptions C04_src_detect_ok.
+Print Assumptions C04_src_c_compress_in_place_table.
+Print Assumptions C04_src_c_compress_xof_table.
+Print Assumptions C04_src_c_hash_many_table.
+Print Assumptions C04_src_c_xof_many_table.
+Print Assumptions C04_src_c_degree_matches_hash_many.
+Print Assumptions C04_src_c_simd_degree_ok.
+Print Assumptions C04_src_c_compress_in_place_ok.
+Print Assumptions C04_src_c_compress_xof_ok.
+Print Assumptions C04_src_c_hash_many_ok.
+Print Assumptions C04_src_c_xof_many_ok.
